@@ -236,7 +236,7 @@ func runC18(c *explore.Ctx) {
 		forEachProfileDoc(c, s, "", func(d kitDoc) { c18Doc(c, s, d, c.Thorough()) })
 		s.WallS = time.Since(t0).Seconds()
 	}
-	n := c.Pick(5, 7)
+	n := c.Pick(5, 9)
 	s = c.Sub("type-blind", fmt.Sprintf("every type-blind document of ≤ %d tokens × the same rule sets", n), "as above", "documents with at least one error")
 	if s != nil {
 		t0 := time.Now()
